@@ -166,7 +166,7 @@ def gen_plan(rng):
         })
     elif fk == 'cancel':
         fault.update({'chan': rng.below(max(1, nch)),
-                      'after': rng.below(12)})
+                      'after': rng.choice([rng.below(12), rng.below(60)])})
 
     return {
         'drbg': rng.below(1 << 30),
@@ -435,6 +435,14 @@ class Run:
         sim, conn = self.sim, self.conn
         name = 'c%d' % i
         kind = ch['kind']
+        f = self.plan['fault']
+
+        if kind == 'tunnel' and f['kind'] == 'stall' and f.get('leg', 0) \
+                and i != [j for j, c in enumerate(self.plan['channels'])
+                          if c['kind'] == 'tunnel'][0]:
+            # keepalive is on for the inner connections: only the one whose
+            # leg stalls may exist, a healthy one would never go quiet
+            kind = 'proc'
 
         for _ in range(ch['start_delay']):
             await sim.pause('start:' + name)
@@ -482,7 +490,10 @@ class Run:
                     self.inner_clients.append(c)
                     return c
 
-                if ch.get('via') == 'string':
+                # (keepalive, needed for stall faults, is a listener-wide
+                # option: an extra healthy connection would never go quiet)
+                if ch.get('via') == 'string' and \
+                        self.plan['fault']['kind'] != 'stall':
                     sim.probes['tunnel_by_name'] += 1
                     conn2 = await asyncssh.connect(
                         'inner', 2222, tunnel='127.0.0.1:22',
@@ -766,7 +777,8 @@ def run_plan(plan, sched_seed=None, sched_replay=None):
         if conn_gone():
             # connection is gone: nothing may still be waiting
             indep = {'drv-c%d' % i for i, ch in enumerate(plan['channels'])
-                     if ch['kind'] == 'tunnel' and ch.get('via') == 'string'}
+                     if ch['kind'] == 'tunnel' and ch.get('via') == 'string'
+                     and f['kind'] != 'stall'}
             hung = [t.sim_name for t in sim.tracked if not t.done() and
                     t.sim_name not in indep]
 
